@@ -747,6 +747,8 @@ class ResNetwork(GeoNetwork):
         0.044
         """
         # set params
+        if not 0 <= i < self.N:
+            raise IndexError(f"Node index {i} out of range.")
         Is = It = FIELD(1.0)
         return _vertex_current_flow_betweenness(
             self.N, Is, It,
